@@ -70,3 +70,19 @@ Theorem C02_payout_nonneg : forall P bk supply vault MP t0 sw sd,
   0 <= p_liq p + p_profit p.
 Proof. exact payout_over_histories. Qed.
 Print Assumptions C02_payout_nonneg.
+
+From Sge Require Import Gen.kernels Proofs.GenKernels.
+(* the max-loss bookkeeping of one fulfilment and the liquidity trimming / round reset of a re-queue in the model ARE the Go methods
+   (exposure.SetCurrentRound, participation.SetCurrentRound / setMaxLoss, TrimCurrentRoundLiquidity, ResetForNextRound, the two eligibility tests):
+   generated from x/orderbook/types on every run and proved equal to the model's functions *)
+Theorem C02_kernels_generated : forall p e o stake pay n,
+  (let pe' := K_ParticipationExposure_SetCurrentRound (ge_of e) stake pay in
+   let p' := K_OrderBookParticipation_SetCurrentRound (gp_of p) pe' o stake in
+   (p', pe') = (gp_of (fst (fulfil_records p e o stake pay)), ge_of (snd (fulfil_records p e o stake pay)))) /\
+  K_OrderBookParticipation_TrimCurrentRoundLiquidity (gp_of p) = gp_of (part_set_crl p (p_crl p - zmax0 (p_crml p))) /\
+  K_OrderBookParticipation_ResetForNextRound (gp_of p) n =
+    gp_of (part_upd p (p_liq p) (p_crl p) n (p_tba p) 0 (p_maxloss p + p_crml p) 0 (p_crml_odds p) (p_profit p)) /\
+  K_OrderBookParticipation_IsEligibleForNextRoundPreLiquidityReduction (gp_of p) = eligible_pre p /\
+  K_OrderBookParticipation_IsEligibleForNextRound (gp_of p) = eligible_next p.
+Proof. intros. split; [apply gen_fulfil_records|]. repeat split. Qed.
+Print Assumptions C02_kernels_generated.
